@@ -1,24 +1,32 @@
 /-!
 # Model of `internal/executor/executor.go` (C08)
 
-Coarse-grained atomic-step relation of the parallel executor.
+COARSE relation of the parallel executor. It merges several critical sections / atomic
+operations of the code into one step each. These merges are a choice of granularity, NOT a
+consequence of the code's locking, and no commutation (mover) argument is given for them;
+the faithful relation, one step per critical section / atomic operation, is
+`Model/ExecutorFine.lean`, over which the property's claims are proved again
+(`Props/C08.lean`, theorems `…_fine`). What is merged here:
 
-* `Run(keys, f)` is one atomic step (`Step.run`): `Run` "is not safe to call concurrently",
-  it is called from one goroutine, and every access it makes to another task's
-  `blocked`/`readers`/`executed` is under that task's lock `l`.
-* A worker's `t, ok := <-e.executable; if e.err.Load() != nil {…}` is one step
-  (`Step.start` when no error is recorded, `Step.skip` otherwise).
-* The end of a task body together with the deferred completion section of `runTask`
-  (deregistration from `readers`, notification of `blocked` under `t.l`, `executed = true`,
-  `outstanding.Done()`) is one step (`Step.finish`, or the second half of `Step.skip`).
+* `Run(keys, f)` is one step (`Step.run`) although it consists of a header, one region per key
+  under the owner's lock `lt.l`, and the final counter adjustment, and other goroutines run
+  in between.
+* A worker's `<-e.executable` (:62) and `e.err.Load()` (:120) are one step (`Step.start` when
+  no error is recorded, `Step.skip` otherwise).
+* The end of a task body, the CAS on `e.err` (:125-126), the deregistrations from the readers
+  sets of the tasks it read (each under that *other* task's lock, :96-100), the notification
+  region under `t.l` (:104-113) and `outstanding.Done()` are one step (`Step.finish`, or the
+  second half of `Step.skip`).
   The order in which `for _, bt := range t.blocked` visits the map is not determined in Go:
   the step carries the order (`order`) in which the newly executable tasks are sent to the
   channel; every permutation is enabled.
-* `Stop` = CAS on `err`; `Wait` returns when `outstanding` is zero.
+* `Stop` = CAS on `err`; `Wait` returns when `outstanding` is zero (the three operations of
+  `Wait` — `outstanding.Wait()`, `close(executable)`, `workers.Wait()`, `err.Load()` — are one
+  step; listed under assumptions).
 
 State components mirror the fields of `Executor` / `task`; `log` is history (ghost) only.
 Sets (`blocked`, `readers`) are characteristic functions, `reading` is a list.
-`executed j` of the code is `status j ∈ {done, skipped}` here (completion is atomic).
+`executed j` of the code is `status j ∈ {done, skipped}`.
 -/
 namespace HyperModel.Executor
 
